@@ -403,8 +403,11 @@ Qed.
 
 Lemma kk_queue_send e d : kk (queue_send e d).
 Proof.
-  apply kk_of; [apply keeps_queue_send|]. intros X w Hg H2. unfold queue_send.
-  destruct (t_collect (cfg w) =? 0); [eapply same_G2; [apply n_send_sd|exact H2]|].
+  apply kk_of; [apply keeps_queue_send|]. intros X w0 Hg0 H20. unfold queue_send.
+  assert (Hg : GP X (ghost (GQueue e d) w0)) by (eapply same_G; [apply n_ghost|exact Hg0]).
+  assert (H2 : G2 (ghost (GQueue e d) w0)) by (eapply same_G2; [apply n_ghost|exact H20]).
+  revert Hg H2. generalize (ghost (GQueue e d) w0). clear w0 Hg0 H20. intros w Hg H2. unfold queue_core.
+  destruct (t_collect (cfg w) =? 0); [eapply same_G2; [apply n_send_sd|]; eapply same_G2; [apply n_ghost|exact H2]|].
   match goal with |- G2 (match ?o with Some _ => _ | None => _ end) => destruct o as [[c co]|] end.
   - apply (G2_tasks_only w); [exact H2|reflexivity..].
   - destruct (call_later (t_collect (cfg w)) (HCollector (next_id w)) w) as [tid w1] eqn:E.
@@ -825,7 +828,7 @@ Proof.
 Qed.
 
 Lemma GG_empty now0 c ins dr : fresh_insts ins ->
-  GG [] (mkWorld now0 [] [] [] 1 c sess_init false None [] [] [] [] None false [] ins [] [] [] dr []).
+  GG [] (mkWorld now0 [] [] [] 1 c sess_init false None [] [] [] [] None false [] ins [] [] [] dr [] []).
 Proof. intros Hf. split; [apply G_empty; exact Hf|]. split; [intros tid st a k []|reflexivity]. Qed.
 
 (* live expiry timers and stored finite-TTL entries correspond one to one in every reachable state *)
